@@ -196,7 +196,7 @@ impl GraphEngine {
         }
 
         #[cfg(nervusdb_verif)]
-        let _vh2 = crate::verif::acquire("pager");
+        let _vh2 = crate::verif::acquire("pager.w");
         let mut pager = self.pager.write().unwrap();
         catalog.get_or_create(&mut pager, &name)?;
         catalog.flush(&mut pager)?;
@@ -205,22 +205,22 @@ impl GraphEngine {
 
     pub fn begin_read(&self) -> Snapshot {
         #[cfg(nervusdb_verif)]
-        crate::verif::touch("published_runs");
+        crate::verif::touch("published_runs.r");
         let runs = self.published_runs.read().unwrap().clone();
         #[cfg(nervusdb_verif)]
         crate::verif::point("snap.runs");
         #[cfg(nervusdb_verif)]
-        crate::verif::touch("published_segments");
+        crate::verif::touch("published_segments.r");
         let segments = self.published_segments.read().unwrap().clone();
         #[cfg(nervusdb_verif)]
         crate::verif::point("snap.segments");
         #[cfg(nervusdb_verif)]
-        crate::verif::touch("published_labels");
+        crate::verif::touch("published_labels.r");
         let labels = self.published_labels.read().unwrap().clone();
         #[cfg(nervusdb_verif)]
         crate::verif::point("snap.labels");
         #[cfg(nervusdb_verif)]
-        crate::verif::touch("published_node_labels");
+        crate::verif::touch("published_node_labels.r");
         let node_labels = self.published_node_labels.read().unwrap().clone();
         #[cfg(nervusdb_verif)]
         crate::verif::point("snap.node_labels");
@@ -310,7 +310,7 @@ impl GraphEngine {
         // Update Published Snapshot
         let snapshot = interner.snapshot();
         #[cfg(nervusdb_verif)]
-        let _vh7 = crate::verif::acquire("published_labels");
+        let _vh7 = crate::verif::acquire("published_labels.w");
         let mut published = self.published_labels.write().unwrap();
         *published = Arc::new(snapshot);
 
@@ -322,7 +322,7 @@ impl GraphEngine {
     fn update_published_node_labels(&self) {
         let snapshot = read_i2l_snapshot(&self.idmap);
         #[cfg(nervusdb_verif)]
-        let _vh8 = crate::verif::acquire("published_node_labels");
+        let _vh8 = crate::verif::acquire("published_node_labels.w");
         let mut published = self.published_node_labels.write().unwrap();
         *published = Arc::new(snapshot);
     }
@@ -349,7 +349,7 @@ impl GraphEngine {
         let _vh9 = crate::verif::acquire("index_catalog");
         let mut catalog = self.index_catalog.lock().unwrap();
         #[cfg(nervusdb_verif)]
-        let _vh10 = crate::verif::acquire("pager");
+        let _vh10 = crate::verif::acquire("pager.w");
         let mut pager = self.pager.write().unwrap();
         #[cfg(nervusdb_verif)]
         let _vh11 = crate::verif::acquire("vector_index");
@@ -372,7 +372,7 @@ impl GraphEngine {
 
     pub fn search_vector(&self, query: &[f32], k: usize) -> Result<Vec<(InternalNodeId, f32)>> {
         #[cfg(nervusdb_verif)]
-        let _vh12 = crate::verif::acquire("pager");
+        let _vh12 = crate::verif::acquire("pager.w");
         let mut pager = self.pager.write().unwrap();
         #[cfg(nervusdb_verif)]
         let _vh13 = crate::verif::acquire("vector_index");
@@ -386,7 +386,7 @@ impl GraphEngine {
 
     fn publish_run(&self, run: Arc<L0Run>) {
         #[cfg(nervusdb_verif)]
-        let _vh14 = crate::verif::acquire("published_runs");
+        let _vh14 = crate::verif::acquire("published_runs.w");
         let mut current = self.published_runs.write().unwrap();
         let mut next = Vec::with_capacity(current.len() + 1);
         next.push(run);
@@ -405,7 +405,7 @@ impl GraphEngine {
         let _guard = self.write_lock.lock().unwrap();
 
         #[cfg(nervusdb_verif)]
-        crate::verif::touch("published_runs");
+        crate::verif::touch("published_runs.r");
         let runs = self.published_runs.read().unwrap().clone();
 
         if runs.is_empty() {
@@ -419,7 +419,7 @@ impl GraphEngine {
 
         {
             #[cfg(nervusdb_verif)]
-            let _vh16 = crate::verif::acquire("pager");
+            let _vh16 = crate::verif::acquire("pager.w");
             let mut pager = self.pager.write().unwrap();
             seg.persist(&mut pager)?;
             pager.sync()?;
@@ -432,7 +432,7 @@ impl GraphEngine {
 
         let new_segments = {
             #[cfg(nervusdb_verif)]
-            crate::verif::touch("published_segments");
+            crate::verif::touch("published_segments.r");
             let current = self.published_segments.read().unwrap().clone();
             let mut next = Vec::with_capacity(current.len() + 1);
             next.push(Arc::new(seg));
@@ -463,7 +463,7 @@ impl GraphEngine {
         let mut current_root = self.properties_root.load(Ordering::SeqCst);
         if !sink_node_props.is_empty() || !sink_edge_props.is_empty() {
             #[cfg(nervusdb_verif)]
-            let _vh17 = crate::verif::acquire("pager");
+            let _vh17 = crate::verif::acquire("pager.w");
             let mut pager = self.pager.write().unwrap();
             let mut tree = if current_root == 0 {
                 BTree::create(&mut pager)?
@@ -531,7 +531,7 @@ impl GraphEngine {
         let stats_root;
         {
             #[cfg(nervusdb_verif)]
-            let _vh19 = crate::verif::acquire("pager");
+            let _vh19 = crate::verif::acquire("pager.w");
             let mut pager = self.pager.write().unwrap();
             let encoded_stats = stats.encode();
             stats_root = crate::blob_store::BlobStore::write(&mut pager, &encoded_stats)?;
@@ -549,7 +549,7 @@ impl GraphEngine {
         // the manifest/checkpoint record allows recovery to skip the log.
         {
             #[cfg(nervusdb_verif)]
-            let _vh20 = crate::verif::acquire("pager");
+            let _vh20 = crate::verif::acquire("pager.w");
             let mut pager = self.pager.write().unwrap();
             pager.sync()?;
         }
@@ -589,7 +589,7 @@ impl GraphEngine {
         crate::verif::point("compact.stats_root");
         {
             #[cfg(nervusdb_verif)]
-            let _vh22 = crate::verif::acquire("published_runs");
+            let _vh22 = crate::verif::acquire("published_runs.w");
             let mut cur_runs = self.published_runs.write().unwrap();
             *cur_runs = Arc::new(Vec::new());
         }
@@ -597,7 +597,7 @@ impl GraphEngine {
         crate::verif::point("compact.runs_cleared");
         {
             #[cfg(nervusdb_verif)]
-            let _vh23 = crate::verif::acquire("published_segments");
+            let _vh23 = crate::verif::acquire("published_segments.w");
             let mut cur_segs = self.published_segments.write().unwrap();
             *cur_segs = new_segments;
         }
@@ -626,14 +626,14 @@ impl GraphEngine {
         let _guard = self.write_lock.lock().unwrap();
 
         #[cfg(nervusdb_verif)]
-        crate::verif::touch("published_runs");
+        crate::verif::touch("published_runs.r");
         let runs = self.published_runs.read().unwrap().clone();
         if !runs.is_empty() {
             // Cannot compact WAL safely while L0 runs (esp. properties) are WAL-only.
             // Best-effort durability: flush NDB + WAL.
             {
                 #[cfg(nervusdb_verif)]
-                let _vh25 = crate::verif::acquire("pager");
+                let _vh25 = crate::verif::acquire("pager.w");
                 let mut pager = self.pager.write().unwrap();
                 pager.sync()?;
             }
@@ -649,7 +649,7 @@ impl GraphEngine {
         // Ensure idmap/pages are durable before allowing recovery to skip old WAL.
         {
             #[cfg(nervusdb_verif)]
-            let _vh27 = crate::verif::acquire("pager");
+            let _vh27 = crate::verif::acquire("pager.w");
             let mut pager = self.pager.write().unwrap();
             pager.sync()?;
         }
@@ -662,7 +662,7 @@ impl GraphEngine {
         };
 
         #[cfg(nervusdb_verif)]
-        crate::verif::touch("published_segments");
+        crate::verif::touch("published_segments.r");
         let segments = self.published_segments.read().unwrap().clone();
         let pointers: Vec<SegmentPointer> = segments
             .iter()
@@ -726,6 +726,8 @@ fn lock_database(ndb_path: &Path) -> Result<std::fs::File> {
         .create(true)
         .truncate(false)
         .open(&lock_path)?;
+    #[cfg(nervusdb_verif)]
+    crate::verif::touch("db_file_lock.try");
     match file.try_lock() {
         Ok(()) => Ok(file),
         Err(std::fs::TryLockError::WouldBlock) => Err(Error::Io(std::io::Error::new(
@@ -1199,7 +1201,7 @@ impl<'a> WriteTxn<'a> {
                 let _vh33 = crate::verif::acquire("index_catalog");
                 let mut catalog = self.engine.index_catalog.lock().unwrap();
                 #[cfg(nervusdb_verif)]
-                let _vh34 = crate::verif::acquire("pager");
+                let _vh34 = crate::verif::acquire("pager.w");
                 let mut pager = self.engine.pager.write().unwrap();
 
                 for (op, node_id) in index_ops {
@@ -1266,7 +1268,7 @@ impl<'a> WriteTxn<'a> {
             let _vh35 = crate::verif::acquire("idmap");
             let mut idmap = self.engine.idmap.lock().unwrap();
             #[cfg(nervusdb_verif)]
-            let _vh36 = crate::verif::acquire("pager");
+            let _vh36 = crate::verif::acquire("pager.w");
             let mut pager = self.engine.pager.write().unwrap();
             for (external_id, label_id, internal_id) in self.created_nodes {
                 idmap.apply_create_node(&mut pager, external_id, label_id, internal_id)?;
